@@ -148,12 +148,41 @@ func svcsOf(p M) []interface{} {
 	return nil
 }
 
+func setKeys(p M, ks []interface{}) {
+	if _, ok := p["publicKeys"]; ok {
+		p["publicKeys"] = ks
+	} else if d, ok := p["document"].(map[string]interface{}); ok {
+		d["publicKeys"] = ks
+	}
+}
+
+func setSvcs(p M, ss []interface{}) {
+	if _, ok := p["services"]; ok {
+		p["services"] = ss
+	} else if d, ok := p["document"].(map[string]interface{}); ok {
+		d["services"] = ss
+	}
+}
+
 func firstKey(p M) M     { return keysOf(p)[0].(map[string]interface{}) }
 func firstService(p M) M { return svcsOf(p)[0].(map[string]interface{}) }
 
 var badIDChars = []string{" ", ".", "#", "/", ":", "é", "~", "+", "=", "\n", " ", "😀", "\\", "\"", "@", "%"}
 
 var keyMuts = []mut{
+	{"key/entry-not-object", func(r *rand.Rand, p M) {
+		junk := pick(r, []interface{}{5, "x", nil, []interface{}{}, true})
+		setKeys(p, append([]interface{}{junk}, keysOf(p)...))
+	}},
+	{"key/only-entry-not-object", func(r *rand.Rand, p M) { setKeys(p, []interface{}{pick(r, []interface{}{5, "x", nil})}) }},
+	{"key/purpose-not-string", func(r *rand.Rand, p M) {
+		ps, _ := firstKey(p)["purposes"].([]interface{})
+		firstKey(p)["purposes"] = append(append([]interface{}{}, ps...), pick(r, []interface{}{7, nil, M{}, []interface{}{"authentication"}}))
+	}},
+	{"key/sixth-purpose-not-string", func(r *rand.Rand, p M) {
+		firstKey(p)["type"] = "JsonWebKey2020"
+		firstKey(p)["purposes"] = []interface{}{"authentication", "assertionMethod", "keyAgreement", "capabilityDelegation", "capabilityInvocation", []interface{}{"sixth"}}
+	}},
 	{"key/id-empty", func(r *rand.Rand, p M) { firstKey(p)["id"] = "" }},
 	{"key/id-51", func(r *rand.Rand, p M) { firstKey(p)["id"] = ident(r, 51) }},
 	{"key/id-50-ok", func(r *rand.Rand, p M) { firstKey(p)["id"] = ident(r, 50) }},
@@ -257,6 +286,11 @@ var keyMuts = []mut{
 }
 
 var svcMuts = []mut{
+	{"service/entry-not-object", func(r *rand.Rand, p M) {
+		junk := pick(r, []interface{}{nil, 5, "x", []interface{}{}})
+		setSvcs(p, append(svcsOf(p), junk))
+	}},
+	{"service/only-entry-not-object", func(r *rand.Rand, p M) { setSvcs(p, []interface{}{pick(r, []interface{}{nil, 5})}) }},
 	{"svc/id-empty", func(r *rand.Rand, p M) { firstService(p)["id"] = "" }},
 	{"svc/id-missing", func(r *rand.Rand, p M) { delete(firstService(p), "id") }},
 	{"svc/id-51", func(r *rand.Rand, p M) { firstService(p)["id"] = ident(r, 51) }},
@@ -362,6 +396,12 @@ func genC13(r *rand.Rand, n int, emit func(string)) {
 					p["document"] = pick(r, []interface{}{[]interface{}{}, "x", nil, M{}})
 					label = "replace/document-shape"
 				}
+				if r.Intn(8) == 0 {
+					k := pick(r, []string{"publicKeys", "services"})
+					doc = M{k: pick(r, []interface{}{"keys", M{"id": "s"}, 5, true})}
+					p["document"] = doc
+					label = "replace/member-not-list"
+				}
 			}
 		case 3, 4:
 			action := []string{"remove-public-keys", "remove-services"}[kind-3]
@@ -372,7 +412,16 @@ func genC13(r *rand.Rand, n int, emit func(string)) {
 			p = M{"action": action, "ids": ids}
 			label = action + "/valid"
 			if mutate {
-				switch r.Intn(6) {
+				switch r.Intn(7) {
+				case 6:
+					// an entry that is no string: skipped by the accessor, so never validated
+					junk := pick(r, []interface{}{123, nil, M{"id": "key2"}, true, []interface{}{"a"}, 1.5})
+					if r.Intn(2) == 0 {
+						p["ids"] = []interface{}{junk}
+					} else {
+						p["ids"] = append(ids, junk)
+					}
+					label = action + "/entry-not-string"
 				case 0:
 					p["ids"] = []interface{}{}
 					label = action + "/empty-list"
@@ -402,7 +451,15 @@ func genC13(r *rand.Rand, n int, emit func(string)) {
 			p = M{"action": action, "uris": uris}
 			label = action + "/valid"
 			if mutate {
-				switch r.Intn(6) {
+				switch r.Intn(7) {
+				case 6:
+					junk := pick(r, []interface{}{1, nil, M{"uri": "x"}, false})
+					if r.Intn(2) == 0 {
+						p["uris"] = []interface{}{junk}
+					} else {
+						p["uris"] = append(uris, junk)
+					}
+					label = action + "/entry-not-string"
 				case 0:
 					p["uris"] = []interface{}{}
 					label = action + "/empty-list"
